@@ -6,7 +6,11 @@
    position, every subset of landed lazy removals, single failing store operations.  Prints one
    driver script per reachable quiescent state for the engine (harness/src/bin/kvstore.rs):
    MUPMC.cfg / MUPMC7.cfg (Kinds = {"pre"}, no closes: the persister alone) feed `--mode mup`,
-   MUPMCc.cfg / MUPMCc7.cfg (the caller's side) feed `--mode cm`. *)
+   MUPMCcq.cfg (quick) / MUPMCc.cfg / MUPMCc7.cfg (the caller's side) feed `--mode cm`;
+   MUPMCbad.cfg is the design mutant RefusedAsUpdate = TRUE, which must violate
+   CrashRecoveredCoversReported.  (MComplete never reaches a NEW state -- a deferred report that is
+   delivered gives the state of an immediate report --, so no printed script contains it: the check
+   adds `complete` steps to scripts with a deferred report.) *)
 EXTENDS MUP, Json
 
 VARIABLES hist,   \* driver script so far
